@@ -142,7 +142,7 @@ def cases(tier, seed):
                 for dims in ((1, 1), (1, 6), (4, 1), (3, 5)):
                     yield {"kind": "grid", "type": dtype, "fmt": fmt, "variant": variant, "dims": list(dims),
                            "seed": seed}
-    n = {"quick": (3000, 600, 500, 250, 1000), "thorough": (45000, 7000, 5000, 1200, 7000)}[tier]
+    n = {"quick": (9000, 1800, 1500, 600, 3000), "thorough": (45000, 7000, 5000, 1200, 7000)}[tier]
     for i in range(n[0]):
         yield {"kind": "rt", "i": i, "seed": seed}
     for i in range(n[1]):
